@@ -38,8 +38,10 @@ base value of the parallel axis):
   sizes        mixed | ones | twos                     kind   linear | sin | tanh | quad
   parallel     serial | 2 threads | 2 processes (Jacobi, Newton, quasi-Newton; inner MDA of a chain)
   method (9 SciPy methods) / use_gradient (quasi-Newton), max_iter (GS-Newton: 200 | 4 so that Newton has to finish),
-  sequence (MDASequential: jacobi3+newton, gs2+jacobi, jacobi2+gs, newton2+gs), inner MDA (5 classes) and
-  mdachain_parallelize_tasks (MDAChain).
+  sequence (MDASequential: 7 compositions, name[budget][@own tolerance] - four with reduced budgets, three whose sub-MDAs
+  have their own tolerances looser (1e-1, 1e-2) and tighter (1e-12) than the outer 1e-10), inner MDA (5 classes),
+  mdachain_parallelize_tasks and sub_coupling_structures {default, given by the user: one CouplingStructure per inner
+  MDA in execution order} (MDAChain; the multi-component graphs put the inner MDAs on different levels of the sequence).
 
 Bound.  thorough: <= 2 deviations on every n = 2 graph and on one representative per isomorphism class of the n = 3
 graphs (plain solvers: the 30 strongly connected classes; chains: the classes where a chain is more than its inner
@@ -93,7 +95,12 @@ Oracle boundaries (rule 1):
   counted (``budget_exhausted_runs``) and nothing is claimed about its data.  Later phases start from the result of
   the earlier ones; the premise ||R_0||_inf <= r0 for them is that this start is within e0 + 1 of the solution.
 * MDASequential itself never updates ``normed_residual``; "reports convergence" is read from the sub-MDA that ran
-  last.
+  last - observed through the execution counters, not recomputed from the early-exit rule - and that sub-MDA is held to
+  the OUTER tolerance (the one the property speaks about); earlier phases only to their own.  Every criterion is relative
+  to the sub-MDA's own first residual: a later phase that starts at rounding distance from the solution stagnates and
+  reports non-convergence; such a run is counted (``later_phase_stagnated_runs``) when its data satisfy (i)-(iii) at the
+  outer-tolerance bound, and is a ``converges`` violation otherwise.  The last sub-MDA of an alphabet sequence is never
+  looser than the outer tolerance.
 * a self-loop variable is private to its discipline (gemseo warns that other uses are unsupported).
 * component-wise scalings are only attainable when no component of the first residual is tiny; the tables are
   generic (no structural zeros) and the check would show an unattainable case as ``converges``.
@@ -133,7 +140,15 @@ SIZES = ["mixed", "ones", "twos"]
 PARALLEL = ["serial", "threads", "processes"]
 # SciPy root methods that converge on (contractive) linear systems; hybr is the class default
 QN_METHODS = ["hybr", "lm", "broyden1", "broyden2", "anderson", "krylov", "df-sane", "diagbroyden", "excitingmixing"]
-SEQUENCES = ["jacobi3+newton", "gs2+jacobi", "jacobi2+gs", "newton2+gs"]
+# MDASequential: name[budget][@own tolerance] (default: the outer tolerance, full budget).  The last three give the sub-MDAs
+# tolerances looser (1e-1, 1e-2) and tighter (1e-12) than the outer 1e-10: coarse initialisation then fine resolution, a first
+# MDA tighter than the outer one (the sequence stops after it), three phases.  Oracle boundaries: the LAST sub-MDA is never
+# looser than the outer tolerance (a sequence ending on a coarser MDA cannot deliver the requested tolerance by construction);
+# every criterion is relative to the sub-MDA's OWN first residual, so the product of the tolerances along a sequence is kept
+# >= 1e-14 and a Newton phase is never the last one after a converged phase (with 1e-2 x 1e-4 x 1e-10 the last phase asks for 1e-16 of the initial residual: unattainable in double precision,
+# it stagnates at rounding level and reports non-convergence although the data are exact to rounding).
+SEQUENCES = ["jacobi3+newton", "gs2+jacobi", "jacobi2+gs", "newton2+gs",
+             "jacobi@1e-2+gs@1e-12", "gs@1e-12+jacobi", "gs@1e-1+jacobi@1e-2+gs"]
 INNER = ["MDAJacobi", "MDAGaussSeidel", "MDANewtonRaphson", "MDAQuasiNewton", "MDAGSNewton"]
 PLAIN = ["MDAJacobi", "MDAGaussSeidel", "MDANewtonRaphson", "MDAQuasiNewton", "MDAGSNewton", "MDASequential"]
 DEFAULT_ACC = {"MDAJacobi": "Alternate2Delta"}
@@ -378,6 +393,7 @@ def _gemseo():
         return _G
     from gemseo.core.chains.chain import MDOChain
     from gemseo.core.discipline import Discipline
+    from gemseo.mda.base_mda import BaseMDA
     from gemseo.mda.gauss_seidel import MDAGaussSeidel
     from gemseo.mda.gs_newton import MDAGSNewton
     from gemseo.mda.jacobi import MDAJacobi
@@ -422,7 +438,7 @@ def _gemseo():
             self.jac = self.body.jac(self.io.data)
 
     _G.update(Harness=Harness, MDAJacobi=MDAJacobi, MDAGaussSeidel=MDAGaussSeidel, MDANewtonRaphson=MDANewtonRaphson,
-              MDAQuasiNewton=MDAQuasiNewton, MDAGSNewton=MDAGSNewton, MDASequential=MDASequential, MDAChain=MDAChain, MDOChain=MDOChain)
+              MDAQuasiNewton=MDAQuasiNewton, MDAGSNewton=MDAGSNewton, MDASequential=MDASequential, MDAChain=MDAChain, MDOChain=MDOChain, BaseMDA=BaseMDA)
     return _G
 
 
@@ -488,10 +504,11 @@ def make_mda(case, discs):
     if cls == "MDASequential":
         subs = []
         for spec in case["sequence"].split("+"):
+            spec, _, own_tol = spec.partition("@")
             name = spec.rstrip("0123456789")
             it = int(spec[len(name):]) if spec[len(name):] else MAX_ITER
             sub = {"jacobi": "MDAJacobi", "gs": "MDAGaussSeidel", "newton": "MDANewtonRaphson"}[name]
-            kw = {"tolerance": TOL, "max_mda_iter": it, "warm_start": bool(case["warm"])}
+            kw = {"tolerance": float(own_tol) if own_tol else TOL, "max_mda_iter": it, "warm_start": bool(case["warm"])}
             if sub != "MDAGaussSeidel":
                 kw["n_processes"] = 1
             subs.append(g[sub](discs, **kw))
@@ -500,29 +517,59 @@ def make_mda(case, discs):
         inner = case["inner"]
         ist = _solver_settings(inner, case)
         # (MDAGSNewton as inner MDA: its Gauss-Seidel / Newton settings are constructor arguments that a chain cannot pass)
+        extra = {}
+        if case.get("sub_cs"):
+            # user-given coupling structures, "one per inner MDA in execution order" (the documented contract of the setting):
+            # the groups of the execution sequence that need an MDA, each over its members in listing order
+            from gemseo.core.coupling_structure import CouplingStructure
+
+            top = CouplingStructure(discs)
+            groups = [grp for stage in top.sequence for grp in stage
+                      if len(grp) > 1 or (top.is_self_coupled(grp[0]) and not isinstance(grp[0], g["BaseMDA"]))]
+            extra["sub_coupling_structures"] = [CouplingStructure([d for d in discs if d in grp]) for grp in groups]
         return g[cls](discs, inner_mda_name=inner, inner_mda_settings=ist,
-                      mdachain_parallelize_tasks=bool(case.get("par_tasks", False)), **common, n_processes=1)
+                      mdachain_parallelize_tasks=bool(case.get("par_tasks", False)), **common, n_processes=1, **extra)
     raise ValueError(cls)
 
 
-def _phases(mda):
-    """The elementary solver loops that ran in the last execution: [(class name, mda, decisive)].
+def _exec_counts(mda, nested=()):
+    """{id(m): number of executions} of every MDA object below ``mda`` (read before and after an execution)."""
+    out = {}
 
-    ``decisive``: its stop criterion decided the returned data (the last phase of a sequence that ran)."""
+    def walk(m):
+        out[id(m)] = m.execution_statistics.n_executions
+        for sub in [*getattr(m, "inner_mdas", ()), *getattr(m, "mda_sequence", ())]:
+            walk(sub)
+
+    for m in [mda, *nested]:
+        walk(m)
+    return out
+
+
+def _phases(mda, before=None):
+    """The elementary solver loops that ran in the last execution: [(class name, mda, decisive, later)].
+
+    ``decisive``: its stop criterion decided the returned data (the last phase of a sequence that ran); ``later``: it started
+    from the result of an earlier phase of a sequence.  Which sub-MDAs of a
+    sequence ran is OBSERVED (execution counters read before / after), not recomputed from the early-exit rule under test."""
     name = type(mda).__name__
     if name == "MDAChain":
-        return [x for m in mda.inner_mdas for x in _phases(m)]
+        return [x for m in mda.inner_mdas for x in _phases(m, before)]
     if name in ("MDASequential", "MDAGSNewton"):
-        ran = []
-        for m in mda.mda_sequence:
-            ran.append(m)
-            if m.normed_residual < mda.settings.tolerance:
-                break
+        counts = [m.execution_statistics.n_executions for m in mda.mda_sequence]
+        if before is not None and all(c is not None for c in counts):
+            ran = [m for m, c in zip(mda.mda_sequence, counts) if c > (before.get(id(m)) or 0)]
+        else:  # statistics disabled: the documented rule
+            ran = []
+            for m in mda.mda_sequence:
+                ran.append(m)
+                if m.normed_residual < mda.settings.tolerance:
+                    break
         out = []
         for m in ran:
-            out += [(nm, mm, dec and m is ran[-1]) for nm, mm, dec in _phases(m)]
+            out += [(nm, mm, dec and m is ran[-1], later or m is not ran[0]) for nm, mm, dec, later in _phases(m, before)]
         return out
-    return [(name, mda, True)]
+    return [(name, mda, True, False)]
 
 
 def _s_factor(scaling, n_c, r0):
@@ -549,6 +596,8 @@ def shape(case):
         sig["inner"] = case["inner"]
     if case.get("wrap"):
         sig["wrap"] = case["wrap"]["kind"]
+    if case.get("sub_cs"):
+        sig["sub_coupling_structures"] = "user-given"
     return sig
 
 
@@ -607,6 +656,7 @@ def run_case(case, tally):
     for k, x in enumerate(xs):
         zref, ref_err = sysm.reference(x)
         try:
+            before = _exec_counts(mda, nested)
             out = mda.execute({"x": np.array(x, dtype=float)})
             out = {kk: np.array(vv, dtype=float) for kk, vv in out.items() if kk in sysm.off or kk == "x"}
         except Exception as e:
@@ -614,7 +664,7 @@ def run_case(case, tally):
             all_conv = False
             break
         reports, s_fac, failed, short = [], 1.0, None, False
-        for name, m, decisive in [*_phases(mda), *[x for m_ in nested for x in _phases(m_)]]:
+        for name, m, decisive, later in [*_phases(mda, before), *[x for m_ in nested for x in _phases(m_, before)]]:
             if name == "MDAQuasiNewton":  # no convergence report exists: SciPy's documented criteria
                 meth = str(m.settings.method)
                 if meth in ("hybr", "lm"):
@@ -628,15 +678,17 @@ def run_case(case, tally):
                     # the Broyden callbacks count SciPy's iterations: maxiter exhausted is the only non-convergence signal of
                     # this class (the callback-fed normed_residual is scaled and normed differently from SciPy's own test)
                     if sysm.kind == "linear":  # premise of the alphabet: the method converges on linear systems
-                        failed = failed or (f"{name}[{meth}]", float(m.normed_residual), its, m.settings.max_mda_iter)
+                        failed = failed or (f"{name}[{meth}]", float(m.normed_residual), its, m.settings.max_mda_iter, False)
                     elif decisive:  # no theory for SciPy's Broyden updates on the nonlinear kinds: nothing is claimed
                         short = True
             else:
                 s = _s_factor(str(m.scaling), sysm.n_c, r0)
                 rep, its = float(m.normed_residual), int(m._current_iter)
-                if not rep <= TOL:
+                # the phase that decides the returned data is held to the OUTER requested tolerance (what the property speaks
+                # about); an earlier phase of a sequence only to its own
+                if not rep <= (TOL if decisive else max(TOL, m.settings.tolerance)):
                     if m.settings.max_mda_iter >= MAX_ITER:
-                        failed = failed or (name, rep, its, m.settings.max_mda_iter)
+                        failed = failed or (name, rep, its, m.settings.max_mda_iter, later and decisive)
                     elif decisive:
                         # oracle boundary: a phase that was deliberately given a few iterations only (GS-Newton with
                         # max_mda_iter = 4, first phases of MDASequential) may legitimately exhaust them - its criterion is
@@ -655,8 +707,21 @@ def run_case(case, tally):
         obs["runs"].append(rec)
         if failed is not None:
             all_conv = False
-            viol("converges", failed[0], f"run {k + 1} (x={list(x)}): {failed[0]} stopped after {failed[2]} iterations with normed residual {failed[1]:.3e} "
-                 f"> tolerance {TOL} on a system contracting with q={sysm.q:.3f} (max_mda_iter={failed[3]})")
+            stagnated = False
+            if failed[4] and all(v in out and out[v].shape == (sysm.size[v],) for v in sysm.names):
+                # oracle boundary: every stop criterion is relative to the sub-MDA's OWN first residual.  A later phase of a
+                # sequence that starts (almost) on the solution - e.g. after an accelerated Jacobi phase that is exact on a small
+                # linear system - is asked for 1e-10 of a residual that is already at rounding level: it stagnates there and
+                # reports non-convergence.  What the property speaks about is the returned data: if they satisfy (i)-(iii) at the
+                # bound of the OUTER tolerance, the run is counted, not reported.
+                z_ = sysm.vec(out)
+                stagnated = bool(np.all(np.abs(sysm.F(z_, x) - z_) <= d_bound) and np.all(np.abs(z_ - zref) <= e_bound))
+            if stagnated:
+                rec["converged"] = "later-phase-stagnated-at-rounding-level"
+                tally.count("later_phase_stagnated_runs")
+            else:
+                viol("converges", failed[0], f"run {k + 1} (x={list(x)}): {failed[0]} stopped after {failed[2]} iterations with normed residual {failed[1]:.3e} "
+                     f"> tolerance {TOL} on a system contracting with q={sysm.q:.3f} (max_mda_iter={failed[3]})")
             continue  # the premises of (i)-(iii) are gone
         if short:
             all_conv = False
@@ -730,6 +795,7 @@ def axes_for(cls, n):
     if cls == "MDAChain":
         ax["inner"] = list(INNER)
         ax["par_tasks"] = [False, True]
+        ax["sub_cs"] = [False, True]  # sub_coupling_structures: default | given by the user, one per inner MDA
     if cls in TRANSFORMER_CLASSES:
         ax["acc"] = ["default", *ACCELERATIONS]
         ax["omega"] = list(OMEGAS)
@@ -903,7 +969,8 @@ def run(ctx):
         "rule": "E2 deviation-bounded enumeration: (MDA class x coupling digraph) x every setting vector with <= k deviations from the "
         "class's defaults over the axes acceleration, relaxation factor, residual scaling, warm start, listing order, input point, "
         "once/twice, sizes, system kind, parallel execution and the class-specific axes (quasi-Newton method / gradient, GS-Newton "
-        "budget, MDASequential sequence, inner MDA and parallel tasks of MDAChain).  "
+        "budget, MDASequential sequence incl. sub-MDA tolerances looser / tighter than the outer one, inner MDA, parallel tasks and "
+        "user-given sub_coupling_structures of MDAChain).  "
         + ("thorough: k = 2 on every n = 2 graph and on one representative per isomorphism class of the n = 3 graphs (chains: classes with "
            "more than one component; the others k = 1), every listing permutation of the default vector on every labelled n = 3 graph"
            if ctx.thorough else
